@@ -1,0 +1,33 @@
+//! Child module of `read_cursor` (only with `--cfg multiqueue2_verif`).
+#![allow(dead_code)]
+
+use super::{ReadCursor, Reader};
+
+impl ReadCursor {
+    /// Harness-only: add `base` to the position of every registered stream (state injection,
+    /// see `MultiQueue::verif_origin_shift`).
+    pub fn verif_shift_positions(&self, base: usize, mask: usize) {
+        unsafe {
+            let rg = &*self.readers.peek();
+            for r in &rg.readers {
+                let p = &(**r).pos_data;
+                p.verif_poke(p.verif_peek().wrapping_add(base) & mask);
+            }
+        }
+    }
+    /// Harness-only: number of registered streams.
+    pub fn verif_stream_count(&self) -> usize {
+        unsafe { (*self.readers.peek()).readers.len() }
+    }
+}
+
+impl Reader {
+    /// Harness-only: this stream's position without a scheduling point.
+    pub fn verif_pos(&self) -> usize {
+        unsafe { (*self.pos).pos_data.verif_peek() }
+    }
+    /// Harness-only: this stream's consumer count without a scheduling point.
+    pub fn verif_consumers(&self) -> usize {
+        unsafe { (*self.meta).num_consumers.peek() }
+    }
+}
